@@ -1,41 +1,108 @@
 """C03 - taste accepts every well-formed plotfile under every option set."""
 import itertools
 import random
+import warnings
+import numpy as np
 from harness import core, gen, diskimg
 from harness.props import taste_common as tc
 
 PID = 'C03'
-KNOWN_KEY = 'binary-data-branch'
 
 
-def in_known_region(opts):
+def reaches_data_check(opts):
     headers, shape, data, coords = opts
     return data and not (headers and shape)
+
+
+def nan_aware_image(pf):
+    """the on-disk image with min/max tables holding the extrema of the non-NaN
+    values (what the binary-data check compares with np.nanmin / np.nanmax);
+    -> (image, True when no component is entirely NaN)"""
+    img = diskimg.image_of(pf)
+    ok = True
+    nf = len(pf.fields)
+    for lv, level in enumerate(pf.levels):
+        _, loc = gen.level_files(level)
+        mins, maxs = [], []
+        for b in range(len(level.boxes)):
+            rmin, rmax = [], []
+            for c in range(nf):
+                col = level.data[b][..., c]
+                if np.all(np.isnan(col)):
+                    ok = False
+                    rmin.append('nan')
+                    rmax.append('nan')
+                else:
+                    rmin.append(gen.minmax_token(np.nanmin(col)))
+                    rmax.append(gen.minmax_token(np.nanmax(col)))
+            mins.append(rmin)
+            maxs.append(rmax)
+        img['dirs'][f"Level_{lv}"]['cellh'] = diskimg.tokens_of(gen.cell_h_text(pf, lv, loc, mins=mins, maxs=maxs))
+    return img, ok
+
+
+def spoil_tables(rng, pf, img):
+    """a copy of the image with one table entry moved away from the extremum, or
+    the rows of two boxes exchanged: no longer well-formed for the data check"""
+    import copy
+    img = copy.deepcopy(img)
+    lv = rng.randrange(pf.nlevels)
+    cellh = img['dirs'][f"Level_{lv}"]['cellh']
+    nb = len(pf.levels[lv].boxes)
+    lay = diskimg.cellh_layout(cellh)
+    first = lay['fod'].stop + 2
+    rows = list(range(first, first + nb)) + list(range(first + nb + 2, first + 2 * nb + 2))
+    assert lay['n'] == nb and all(b','.join(cellh[r]).count(b',') >= len(pf.fields) for r in rows), (rows, cellh)
+    if nb >= 2 and rng.random() < 0.4:
+        tbl = rng.choice([0, nb])
+        i, j = rng.sample(range(nb), 2)
+        cellh[rows[tbl + i]], cellh[rows[tbl + j]] = cellh[rows[tbl + j]], cellh[rows[tbl + i]]
+        how = f"rows {i},{j} of the {'min' if tbl == 0 else 'max'} table of level {lv} exchanged"
+    else:
+        r = rng.choice(rows)
+        toks = b''.join(cellh[r]).split(b',')[:-1]
+        k = rng.randrange(len(toks))
+        x = float(toks[k])
+        y = x * 2 + 1 if np.isfinite(x) else 0.0
+        toks[k] = (gen.minmax_token(y)).encode()
+        cellh[r] = [b','.join(toks) + b',']
+        how = f"entry {k} of table row {rows.index(r)} of level {lv}: {x!r} -> {y!r}"
+    return img, how
 
 
 def run_case(seed):
     rng = random.Random(seed)
     model = core.W['model']
-    out = dict(evals=0, keys=[], dist={}, samples=[], violations=[], disagreements=[], known={})
+    out = dict(evals=0, keys=[], dist={}, samples=[], violations=[], disagreements=[])
     dist = out['dist']
 
     def count(k):
         dist[k] = dist.get(k, 0) + 1
 
-    pf = gen.gen_plotfile(rng, max_blocks=2, payload=rng.choice(['ints', 'random']),
-                          allow_repeat=True)
-    img = diskimg.image_of(pf)
+    payload = rng.choice(['ints', 'random', 'special', 'smallints'])
+    pf = gen.gen_plotfile(rng, max_blocks=2, payload=payload, allow_repeat=True)
+    warnings.simplefilter('ignore')
+    # np.nanmin / np.nanmax on SIGNALLING NaNs is platform dependent (C fmin returns a quiet NaN for a
+    # signalling operand and the running extremum is lost: nanmin([1, sNaN, 2]) = 2): outside the model.
+    # NaNs are kept (payload bits and sign included) but made quiet.
+    for level in pf.levels:
+        for b in range(len(level.data)):
+            bits = level.data[b].view(np.uint64)
+            bits[np.isnan(level.data[b])] |= np.uint64(0x0008000000000000)
+    img, data_wf = nan_aware_image(pf)
     path = core.scratch_dir(f"c03_{seed}")
     diskimg.write_image(img, path)
     img_sx = diskimg.image_sx(img)
+    close = tc.close_table(img)
     count(f"ndims={pf.ndims}")
     count(f"levels={pf.nlevels}")
     count(f"geo={pf.meta['geo']}")
+    count(f"payload={payload}")
+    count(f"tables describe every component={data_wf}")
     for lk in pf.meta['layouts']:
         count(f"layout={lk}")
-    finest = pf.nlevels - 1
     for limit in [None] + list(range(pf.nlevels)):
-        mall = tc.model_taste_all(model, img_sx, limit)
+        mall = tc.model_taste_all(model, img_sx, limit, close)
         for opts in itertools.product([True, False], repeat=4):
             k = (1 if opts[0] else 0) + (2 if opts[1] else 0) + (4 if opts[2] else 0)
             mgood = mall[k]
@@ -44,22 +111,39 @@ def run_case(seed):
                 verdict, detail = tc.impl_taste(path, limit, opts, nofail)
                 out['evals'] += 1
                 count(f"verdict={verdict}")
+                count(f"reaches data check={reaches_data_check(opts)}")
                 desc = dict(seed=seed, limit_level=limit, options=dict(zip(tc.OPT_NAMES, opts)), nofail=nofail,
                             meta=pf.meta)
                 out['keys'].append(core.khash(seed, limit, opts, nofail))
                 if not out['samples']:
                     out['samples'].append(dict(desc, verdict=verdict))
-                if verdict != 'good':
-                    if in_known_region(opts):
-                        out['known'][KNOWN_KEY] = out['known'].get(KNOWN_KEY, 0) + 1
-                    else:
-                        out['violations'].append(dict(desc, kind='rejects-wellformed',
-                                                      what=f'validation of a well-formed plotfile gave {verdict} {detail}',
-                                                      model_says_good=mgood))
+                # the property: well-formed => good (for the data check well-formed includes tables that
+                # describe every component: a component without any non-NaN value has no extremum)
+                if verdict != 'good' and (data_wf or not reaches_data_check(opts)):
+                    out['violations'].append(dict(desc, kind='rejects-wellformed',
+                                                  what=f'validation of a well-formed plotfile gave {verdict} {detail}',
+                                                  model_says_good=mgood))
                 if (verdict == 'good') != mgood:
                     out['disagreements'].append(dict(desc, kind='model-vs-impl', impl=verdict, model_good=mgood,
                                                      what='implementation verdict differs from Taste.taste_good',
                                                      correspondence='Taste.Taste.taste_good vs Taster'))
+    # the rejecting side of the data check (model vs implementation only)
+    bad, how = spoil_tables(rng, pf, img)
+    pbad = core.scratch_dir(f"c03_{seed}_spoilt")
+    diskimg.write_image(bad, pbad)
+    mall = tc.model_taste_all(model, diskimg.image_sx(bad), None, tc.close_table(bad))
+    for opts3 in itertools.product([True, False], repeat=3):
+        opts = opts3 + (False,)
+        k = (1 if opts[0] else 0) + (2 if opts[1] else 0) + (4 if opts[2] else 0)
+        verdict, detail = tc.impl_taste(pbad, None, opts, True)
+        out['evals'] += 1
+        count(f"spoilt tables: verdict={verdict}" + (" (data check)" if reaches_data_check(opts) else ""))
+        out['keys'].append(core.khash(seed, 'spoilt', opts))
+        if (verdict == 'good') != mall[k]:
+            out['disagreements'].append(dict(seed=seed, options=dict(zip(tc.OPT_NAMES, opts)), spoilt=how, kind='model-vs-impl',
+                                             impl=verdict, model_good=mall[k],
+                                             what=f'tables spoilt ({how}): implementation verdict {verdict} differs from Taste.taste_good',
+                                             correspondence='Taste.Taste.check_data vs Taster.taste_binary_data'))
     core.set_policy('identity', 0)
     return out
 
@@ -77,18 +161,28 @@ def run(tier, seed):
     cases = [seed * 100000 + 3000 + i for i in range(ncases)]
     for r in core.run_cases(run_case, core.with_corpus(PID, cases)):
         rep.merge(r)
-    # violations inside the known region that are not listed stay violations
-    if rep.known_hits and KNOWN_KEY not in known:
-        rep.violations.append((dict(kind='rejects-wellformed', what='binary_data option sets reject well-formed plotfiles (not listed as known)'), True))
-        rep.known_hits.clear()
-    rep.obligation('correspondence: Taste.taste_good = bool(Taster) on 16 option sets x limits x {fail, nofail}',
+    rep.obligation('correspondence: Taste.taste_good = bool(Taster) on 16 option sets x limits x {fail, nofail}, and on spoilt min/max tables',
                    not any(v[0].get('kind') == 'model-vs-impl' for v in rep.violations))
     return rep.finish(
-        level_rule=("cases = generated well-formed plotfile (all layout kinds incl. scattered / non-monotone) x all 16 option sets x "
-                    "limit in {None, 0..finest} x {fail, nofail}, pool task order varied; every case is non-trivial; distinct = distinct "
-                    "(seed, limit, options, mode)"),
-        trusted_base=core.COMMON_TRUSTED,
+        level_rule=("cases = generated well-formed plotfile (all layout kinds incl. scattered / non-monotone; int / random / small-int / "
+                    "special payloads with NaNs, infinities, signed zeros; min/max tables = extrema of the non-NaN values) x all 16 option "
+                    "sets x limit in {None, 0..finest} x {fail, nofail}, pool task order varied; plus, per case, one image with a spoilt "
+                    "min/max table (entry moved, or two rows exchanged) under the 8 option sets without box coordinates (model = "
+                    "implementation; not part of the property); distinct = distinct (seed, limit, options, mode)"),
+        trusted_base=core.COMMON_TRUSTED + [
+            "np.isclose(float(table token), extremum) is an oracle of the model's binary-data check: the table of close pairs is computed by "
+            "numpy in the harness (taste_common.close_table) from the level headers and a lenient scan of the binary files",
+            "outside the model: min/max tables with rows of different lengths, ties between recorded offsets (np.argsort)"],
         assumptions=["box-coordinate check (np.linspace / np.isclose) is exercised on the implementation only; the Coq model covers the "
-                     "structure, binary-header and binary-shape checks and the reachability of the binary-data branch",
+                     "structure, binary-header, binary-shape and binary-data checks",
                      "os.listdir lists exactly the files written"],
         checker_cmd=pg['checker_cmd'], known=known)
+
+
+def replay(doc):
+    core.worker_init(core.REPO, quiet=False)
+    r = run_case(doc['seed'])
+    bad = r['violations'] + r['disagreements']
+    for v in bad:
+        print('REPLAY:', v.get('what'))
+    return 1 if bad else 0
